@@ -4,5 +4,5 @@ set -eu
 P=$(realpath "$1"); W=/tmp/tp-$$; ID=${2:-all}
 git -C /repo worktree add -q --detach "$W" HEAD
 ( cd "$W" && git apply --3way "$P" >/dev/null 2>&1 || git apply "$P" )
-REPO_DIR="$W" /verif/check "$ID" quick | grep -v "^  rule\|KNOWN-FINDING" || true
-git -C /repo worktree remove --force "$W"; rm -rf "$W"
+REFCHECK_OUT="$W.out" REPO_DIR="$W" /verif/check "$ID" quick | grep -v "^  rule\|KNOWN-FINDING" || true
+git -C /repo worktree remove --force "$W"; rm -rf "$W" "$W.out"
